@@ -479,3 +479,103 @@ B('pkgA_request_core_globals_renamed_crossed', ['C03'], 'R03.c',
   (C, "    context = endpoint({endpoint_args})\n    if isinstance(context, BaseResponse):", "    context = ep_chain({endpoint_args})\n    if isinstance(context, Response):"),
   (C, "        resp = render({render_args})", "        resp = rn_chain({render_args})"),
   (C, "    env = {'endpoint': endpoint, 'render': render, 'BaseResponse': BaseResponse}", "    env = {'rn_chain': endpoint, 'ep_chain': render, 'Response': BaseResponse}"))
+
+
+# ==================================================================================================================
+# second pass: clauses added for the seeded changes of round c
+# ==================================================================================================================
+
+# ------------------------------------------------------------------ R01.b / R04.*: the documented rejection is what the caller gets
+# (building the message of the exception cannot itself raise: every format gets the number of values it takes)
+_EP_RAISE = ('        raise NameError("unresolved endpoint middleware arguments: %r"\n'
+             '                        % list(ep_unres))\n')
+_RN_RAISE = ('        raise NameError("unresolved render middleware arguments: %r"\n'
+             '                        % list(rn_unres))\n')
+_REQ_RAISE = ('        raise NameError("unresolved request middleware arguments: %r"\n'
+              '                        % list(req_unres))\n')
+B('pkgA_unres_msg_bare_tuple_from_make_chain', ['C01', 'C04'], {'C01': 'R01.b', 'C04': 'R04.e'},
+  (S, '    return chain, set(args), set(unresolved)', '    return chain, set(args), unresolved'),
+  (C, _EP_RAISE, '        raise NameError("unresolved endpoint middleware arguments: %r" % (ep_unres))\n'))
+B('pkgA_unres_msg_tuple_call_at_raise', ['C01'], 'R01.b',
+  (C, _RN_RAISE, '        raise NameError("unresolved render middleware arguments: %r" % tuple(rn_unres))\n'))
+B('pkgA_unres_msg_two_conversions_one_value', ['C01'], 'R01.b',
+  (C, _REQ_RAISE, '        raise NameError("unresolved request middleware arguments: %r (available: %r)" % sorted(req_unres))\n'))
+B('pkgA_unres_msg_format_missing_field', ['C01'], 'R01.b',
+  (C, _EP_RAISE, '        raise NameError("unresolved endpoint middleware arguments: {0} (endpoint {1})".format(sorted(ep_unres)))\n'))
+B('pkgA_unres_msg_str_plus_list', ['C01'], 'R01.b',
+  (C, _RN_RAISE, '        raise NameError("unresolved render middleware arguments: " + sorted(rn_unres))\n'))
+B('pkgA_unres_msg_module_constant_two_tuple', ['C01'], 'R01.b',
+  (C, _REQ_RAISE, '        raise NameError(_UNRES_MSG % ("request", req_unres))\n'),
+  (C, "_INNER_NAME = 'next'\n", "_INNER_NAME = 'next'\n_UNRES_MSG = 'unresolved middleware arguments: %r'\n"))
+T('pkgA_twin_unres_msg_one_tuple', ['C01', 'C04'],
+  (C, _EP_RAISE, '        raise NameError("unresolved endpoint middleware arguments: %r" % (sorted(ep_unres),))\n'))
+T('pkgA_twin_unres_msg_set_operand', ['C01', 'C04'],
+  (C, _EP_RAISE, '        raise NameError("unresolved endpoint middleware arguments: %r" % (ep_unres))\n'),
+  (C, _RN_RAISE, '        raise NameError("unresolved render middleware arguments: %r" % rn_unres)\n'))
+T('pkgA_twin_make_chain_returns_tuple_raise_wraps', ['C01', 'C04'],
+  (S, '    return chain, set(args), set(unresolved)', '    return chain, set(args), unresolved'))
+T('pkgA_twin_unres_msg_format_and_constant', ['C01', 'C04'],
+  (C, _EP_RAISE, '        raise NameError("unresolved endpoint middleware arguments: {0!r}".format(sorted(ep_unres)))\n'),
+  (C, _RN_RAISE, '        raise NameError(f"unresolved render middleware arguments: {sorted(rn_unres)!r}")\n'),
+  (C, _REQ_RAISE, '        raise NameError(_UNRES_MSG % ("request", sorted(req_unres)))\n'),
+  (C, "_INNER_NAME = 'next'\n", "_INNER_NAME = 'next'\n_UNRES_MSG = 'unresolved %s middleware arguments: %r'\n"))
+B('pkgA_conflict_msg_tuple_operand', ['C04'], 'R04.a',
+  (C, "        raise NameError('found conflicting provides: %r' % conflicts)", "        raise NameError('found conflicting provides: %r' % tuple(conflicts))"))
+B('pkgA_reserved_msg_tuple_operand', ['C04'], 'R04.c',
+  (A, "        resource_conflicts = [r for r in RESERVED_ARGS if r in self.resources]\n",
+      "        resource_conflicts = tuple(r for r in RESERVED_ARGS if r in self.resources)\n"))
+B('pkgA_next_first_msg_lacks_value', ['C04'], 'R04.d',
+  (C, '                            " \'next\' as the first parameter (%s.%s)"\n                            % (mw.name, f_name))',
+      '                            " \'next\' as the first parameter (%s.%s)"\n                            % (mw.name,))'))
+T('pkgA_twin_conflict_msg_one_tuple', ['C04'],
+  (C, "        raise NameError('found conflicting provides: %r' % conflicts)", "        raise NameError('found conflicting provides: %r' % (tuple(conflicts),))"))
+
+# ------------------------------------------------------------------ R03.d / R04.a: merge_middlewares
+# (duplicates are looked up in the result *as it grows*; what came from the new list is never replaced, moved or removed;
+#  nothing but a unique duplicate is left out)
+_DUP_I = "mw.unique and (mw in outer or mw in old[:i])"
+_MERGE_CLOSED = ("    old = list(old)\n"
+                 "    outer = list(new)\n"
+                 "    dupes = [mw for i, mw in enumerate(old) if %(dup)s]\n"
+                 "    pinned = [mw for mw in dupes if not mw.reorderable]\n"
+                 "    if pinned:\n"
+                 "        raise ValueError('multiple inclusion of unique middleware %%r' %% pinned[0].name)\n"
+                 "    merged = outer + [mw for i, mw in enumerate(old) if not (%(dup)s)]\n")
+T('pkgA_twin_merge_closed_form', ['C03', 'C04'], (C, _MERGE_OLD, _MERGE_CLOSED % {'dup': _DUP_I}))
+T('pkgA_twin_merge_closed_form_any_concat', ['C03', 'C04'],
+  (C, _MERGE_OLD, "    old, outer = list(old), list(new)\n"
+                  "    if any(mw.unique and mw in outer + old[:i] and not mw.reorderable for i, mw in enumerate(old)):\n"
+                  "        raise ValueError('multiple inclusion of a unique middleware')\n"
+                  "    inner = [mw for i, mw in enumerate(old) if not mw.unique or mw not in outer + old[:i]]\n"
+                  "    merged = outer + inner\n"))
+B('pkgA_merge_closed_form_fixed_list', ['C03'], 'R03.d', (C, _MERGE_OLD, _MERGE_CLOSED % {'dup': "mw.unique and mw in outer"}))
+B('pkgA_merge_closed_form_prefix_only', ['C03'], 'R03.d', (C, _MERGE_OLD, _MERGE_CLOSED % {'dup': "mw.unique and mw in old[:i]"}))
+B('pkgA_merge_closed_form_whole_old', ['C03', 'C04'], {'C03': 'R03.d', 'C04': 'R04.a'},
+  (C, _MERGE_OLD, _MERGE_CLOSED % {'dup': "mw.unique and (mw in outer or mw in old)"}))
+B('pkgA_merge_closed_form_drops_nonunique', ['C03', 'C04'], {'C03': 'R03.d', 'C04': 'R04.a'},
+  (C, _MERGE_OLD, _MERGE_CLOSED % {'dup': "(mw in outer or mw in old[:i])"}))
+B('pkgA_merge_loop_tests_fixed_list', ['C03'], 'R03.d',
+  (C, "    merged = list(new)\n    for mw in old:\n        if mw.unique and mw in merged:\n",
+      "    outer = list(new)\n    merged = list(outer)\n    for mw in old:\n        if mw.unique and mw in outer:\n"))
+T('pkgA_twin_merge_append_spellings', ['C03', 'C04'], (C, "        merged.append(mw)\n", "        merged += [mw]\n"))
+T('pkgA_twin_merge_not_in_guard', ['C03', 'C04'],
+  (C, _MERGE_OLD, "    old = list(old)\n    merged = list(new)\n    for mw in old:\n"
+                  "        if not mw.unique or mw not in merged:\n"
+                  "            merged.extend([mw])\n"
+                  "        elif not mw.reorderable:\n"
+                  "            raise ValueError('multiple inclusion of unique middleware %r' % mw.name)\n"))
+B('pkgA_merge_replaces_outer_instance', ['C03'], 'R03.d',
+  (C, "            if mw.reorderable:\n                continue\n", "            if mw.reorderable:\n                merged[merged.index(mw)] = mw\n                continue\n"))
+B('pkgA_merge_moves_duplicate_inwards', ['C03'], 'R03.d',
+  (C, "            if mw.reorderable:\n                continue\n", "            if mw.reorderable:\n                del merged[merged.index(mw)]\n"))
+B('pkgA_merge_alias_insert_front', ['C03'], 'R03.d',
+  (C, "        merged.append(mw)\n    return merged", "        merged.append(mw)\n    result = merged\n    result.insert(0, result.pop())\n    return merged"))
+B('pkgA_merge_sorts_result', ['C03'], 'R03.d',
+  (C, "        merged.append(mw)\n    return merged", "        merged.append(mw)\n    merged.sort(key=lambda m: m.name)\n    return merged"))
+B('pkgA_merge_drops_present_nonunique', ['C04'], 'R04.a',
+  (C, "        if mw.unique and mw in merged:\n            if mw.reorderable:\n                continue\n            else:\n",
+      "        if mw in merged:\n            if mw.reorderable:\n                continue\n            if mw.unique:\n"))
+B('pkgA_merge_outer_list_filtered', ['C03', 'C04'], {'C03': 'R03.d', 'C04': 'R04.a'},
+  (C, "    merged = list(new)\n", "    merged = [m for m in new if m.unique]\n"))
+B('pkgA_merge_result_truncated', ['C04'], 'R04.a',
+  (C, "        merged.append(mw)\n    return merged", "        merged.append(mw)\n    while len(merged) > 16:\n        merged.pop()\n    return merged"))
